@@ -435,7 +435,10 @@ size_t rtosc_amessage(char              *buffer,
 
 static rtosc_arg_t extract_arg(const uint8_t *arg_pos, char type)
 {
-    rtosc_arg_t result = {0};
+    rtosc_arg_t result;
+    //zero every byte of the union: "= {0}" only initializes the first
+    //member (4 bytes), the 8 byte members below are built up with |=
+    memset(&result, 0, sizeof(result));
     //trivial case
     if(!has_reserved(type)) {
         switch(type)
@@ -515,7 +518,8 @@ rtosc_arg_itr_t rtosc_itr_begin(const char *msg)
 rtosc_arg_val_t rtosc_itr_next(rtosc_arg_itr_t *itr)
 {
     //current position provides the value
-    rtosc_arg_val_t result = {0,{0}};
+    rtosc_arg_val_t result;
+    memset(&result, 0, sizeof(result));
     result.type = *itr->type_pos;
     if(result.type)
         result.val = extract_arg(itr->value_pos, result.type);
